@@ -3,6 +3,7 @@ package lab
 import (
 	"fmt"
 	"sync"
+	"sync/atomic"
 	"time"
 
 	ristretto "github.com/dgraph-io/ristretto/v2"
@@ -21,7 +22,16 @@ type Gate struct {
 	taken   int // items dequeued (ApplierItem)
 	stopped int // Clear observed the applier stopped (ClearStopped)
 	sweeps  int // SweepDone
-	Other   func(point int, arg uint64)
+	other   atomic.Pointer[func(point int, arg uint64)]
+}
+
+// SetOther installs (or with nil removes) a handler that also sees every hook point; safe while hooks fire.
+func (g *Gate) SetOther(f func(point int, arg uint64)) {
+	if f == nil {
+		g.other.Store(nil)
+		return
+	}
+	g.other.Store(&f)
 }
 
 func NewGate(l *Lab) *Gate {
@@ -63,8 +73,8 @@ func (g *Gate) hook(point int, arg uint64) {
 		g.cond.Broadcast()
 		g.mu.Unlock()
 	}
-	if g.Other != nil {
-		g.Other(point, arg)
+	if f := g.other.Load(); f != nil {
+		(*f)(point, arg)
 	}
 }
 
